@@ -1,6 +1,6 @@
 """C03 - the lattice contains exactly the formal concepts of the context, once each."""
 
-from vlib import lib, tablecheck
+from vlib import bigcases, lib, tablecheck
 from vlib.oracle import Ref
 
 PROPERTY = 'C03'
@@ -53,11 +53,17 @@ def check_one(case, ctx, deep):
 
 
 def plan(tier, seed):
-    return tablecheck.plan(tier, seed, wide=True, tall=True, odd=True, thorough_cells=18)
+    return tablecheck.plan(tier, seed, wide=True, tall=True, odd=True, thorough_cells=18, fixed=('chain:520',))
+
+
+def fixed_cases(name):
+    # a chain of 520 concepts: deeper than any recursion over lattice levels survives
+    kind, size = name.split(':')
+    yield dict(bigcases.chain(int(size)), f='big-' + kind)
 
 
 def run(task, ctx):
-    tablecheck.run(task, ctx, check_one)
+    tablecheck.run(task, ctx, check_one, fixed_cases=fixed_cases)
 
 
 def replay(case, ctx):
